@@ -67,6 +67,8 @@ class WSGIWrapper:
         body = bytearray()
         while True:
             message = await receive()
+            if message["type"] == "http.disconnect":
+                return  # The client left before the body was complete
             body.extend(message.get("body", b""))  # type: ignore
             if len(body) > self.max_body_size:
                 await send({"type": "http.response.start", "status": 400, "headers": []})
